@@ -495,6 +495,12 @@ class ListCmpHooks:
         return Sym('chunk', name=which, digit=self.cfg['kind' + which])
 
     def ev_expr(self, it, e, env, facts):
+        # after the loop: lb[len(la)] (la[len(lb)]) is the element of the longer list at the position where the other has ended
+        if isinstance(e, ast.Subscript) and isinstance(e.value, ast.Name) and e.value.id in (self.la, self.lb):
+            other = self.lb if e.value.id == self.la else self.la
+            which = 'A' if e.value.id == self.la else 'B'
+            if norm(e.slice) == 'len(%s)' % other and env.get('#' + which) == 'NE' and env.get('#' + ('B' if which == 'A' else 'A')) == 'E':
+                return self.elem(which)
         return NotImplemented
 
     def ev_call(self, it, c, env, facts):
@@ -600,6 +606,13 @@ def analyse_list_comparator(f, elem_kind):
             loop = st
     if la is None or lb is None or loop is None:
         raise AnalysisError('%s: the two element lists / the comparison loop were not found' % f.site)
+    if isinstance(loop, ast.For) and isinstance(loop.iter, ast.Call) and norm(loop.iter.func) == 'enumerate':
+        # a walk by index over the first list that pads the second: the position loop it abbreviates
+        alt = normalize.enumerate_pad_loop_to_while(fnode_, la, lb)
+        if alt is not None:
+            fnode_ = alt
+            body = fnode_.body
+            loop = [st for st in body if isinstance(st, (ast.While, ast.For))][0]
     post = body[body.index(loop) + 1:]
     results = {}
     kinds = [(None, None)] if elem_kind == 'int' else [(a, b) for a in (True, False) for b in (True, False)]
